@@ -25,7 +25,7 @@ impl DetectProp for C10 {
         match o {
             Outcome::Ok(v) => format!(
                 "ok {}",
-                sorted_join(v.iter().map(|m| format!("{}+{}:{}:{:?}:{}", m.enc, m.subs.join("+"), m.chaos, m.text, m.coh.iter().map(|x| x.0.clone()).collect::<Vec<_>>().join(","))).collect())
+                sorted_join(v.iter().map(|m| format!("{}+{}:{}:{:?}:{}:{}", m.enc, m.subs.join("+"), m.chaos, m.text, m.coh.iter().map(|x| x.0.clone()).collect::<Vec<_>>().join(","), m.lang)).collect())
             ),
             other => other.show(),
         }
@@ -43,6 +43,9 @@ impl DetectProp for C10 {
         }
         if idx % 5 == 1 {
             c.sett.thr = 1.0;
+        }
+        if idx % 4 == 2 {
+            c = declared_ascii_case(rng);
         }
         c
     }
